@@ -4,6 +4,5 @@ package props
 
 import "siotcheck/kit"
 
-func c09Store(c *kit.Ctx, a *c09Anchors)   {}
 func c09Wiring(c *kit.Ctx, a *c09Anchors)  {}
 func c09Listing(c *kit.Ctx, a *c09Anchors) {}
